@@ -355,6 +355,39 @@ fn preprocess_text_hangul(_: &hb_ot_shape_plan_t, face: &hb_font_t, buffer: &mut
     buffer.sync();
 }
 
+// ---- verification hooks (compiled only with `--cfg rustybuzz_verif`; add-only wrappers around the
+// private items of this file, used by the external correspondence harness of property C12).
+#[cfg(rustybuzz_verif)]
+pub fn verif_pred(which: u8, u: u32) -> bool {
+    match which {
+        0 => is_combining_l(u),
+        1 => is_combining_v(u),
+        2 => is_combining_t(u),
+        3 => is_combined_s(u),
+        4 => is_l(u),
+        5 => is_v(u),
+        6 => is_t(u),
+        _ => is_hangul_tone(u),
+    }
+}
+
+#[cfg(rustybuzz_verif)]
+pub fn verif_preprocess_text_hangul(
+    plan: &hb_ot_shape_plan_t,
+    face: &hb_font_t,
+    buffer: &mut hb_buffer_t,
+) {
+    preprocess_text_hangul(plan, face, buffer)
+}
+
+#[cfg(rustybuzz_verif)]
+pub fn verif_hangul_shaping_feature(info: &hb_glyph_info_t) -> u8 {
+    info.hangul_shaping_feature()
+}
+
+#[cfg(rustybuzz_verif)]
+pub const VERIF_JMO: [u8; 3] = [LJMO, VJMO, TJMO];
+
 fn setup_masks_hangul(plan: &hb_ot_shape_plan_t, _: &hb_font_t, buffer: &mut hb_buffer_t) {
     let hangul_plan = plan.data::<hangul_shape_plan_t>();
     for info in buffer.info_slice_mut() {
